@@ -330,7 +330,7 @@ func checkCLI(s *cliScript) (msg string, harnessErr string) {
 			return "", ""
 		}
 		if run.exit != 0 && strings.HasPrefix(exp.stdout, got) {
-			return fmt.Sprintf("a line of %d bytes: the read failure is reported (exit status %d) but the output of statements that ended on earlier lines is lost: %d bytes written, the statements before that line produce %d\n stderr: %s", s.LongLineBytes, run.exit, len(got), len(must), trunc(run.stderr, 300)), ""
+			return fmt.Sprintf("a line of %d bytes: a failure is reported (exit status %d) but the output lacks statements that ended on earlier lines: %d bytes written, the statements before that line produce %d\n stderr: %s", s.LongLineBytes, run.exit, len(got), len(must), trunc(run.stderr, 300)), ""
 		}
 		return fmt.Sprintf("a line of %d bytes: exit status %d with %d of %d expected output bytes: statements were dropped without an error", s.LongLineBytes, run.exit, len(got), len(exp.stdout)), ""
 	}
@@ -378,7 +378,15 @@ func layoutStmt(rt *rapid.T, g *gen.G, pr *gen.Printed) string {
 			seps[i] = " "
 		}
 	}
-	return gen.Layout(pr, seps).Src
+	src := gen.Layout(pr, seps).Src
+	// now and then a comment between the statement's last token and its semicolon
+	switch rapid.IntRange(0, 9).Draw(rt, "tailcomment") {
+	case 0:
+		src += " // note\n"
+	case 1:
+		src += "\n// note; with a semicolon\n  "
+	}
+	return src
 }
 
 func TestC16Scripts(t *testing.T) {
@@ -387,7 +395,7 @@ func TestC16Scripts(t *testing.T) {
 	rapid.Check(t, func(rt *rapid.T) {
 		g := gen.NewG(rt, gen.Cfg{MaxDepth: 2, MaxOps: 3, JoinDepth: 1, Compilable: true})
 		s := &cliScript{}
-		var letNames []string
+		var letNames, letTexts, letTextNames []string
 		kinds := ""
 		n := rapid.IntRange(0, 8).Draw(rt, "nstmts")
 		for i := 0; i < n; i++ {
@@ -411,7 +419,15 @@ func TestC16Scripts(t *testing.T) {
 					x = &gen.Binary{Op: "+", X: gen.ID(rapid.SampledFrom(letNames).Draw(rt, "chainof")), Y: x}
 				}
 				l := &gen.Let{Name: gen.Ident{Name: name}, X: x}
-				s.Stmts = append(s.Stmts, cliStmt{"let", layoutStmt(rt, g, gen.Print(&gen.Program{Stmts: []gen.Stmt{l}}))})
+				text := layoutStmt(rt, g, gen.Print(&gen.Program{Stmts: []gen.Stmt{l}}))
+				if len(letTexts) > 0 && rapid.IntRange(0, 3).Draw(rt, "repeatlet") == 0 {
+					// the very text of an earlier let once more (other lets of
+					// the same name may lie in between)
+					k := rapid.IntRange(0, len(letTexts)-1).Draw(rt, "whichrepeat")
+					text, name = letTexts[k], letTextNames[k]
+				}
+				letTexts, letTextNames = append(letTexts, text), append(letTextNames, name)
+				s.Stmts = append(s.Stmts, cliStmt{"let", text})
 				letNames = append(letNames, name)
 				kinds += "L"
 			case k == 7:
@@ -434,6 +450,10 @@ func TestC16Scripts(t *testing.T) {
 					"T | extend v = strcat('//', s, \"/* ; */\") | take 2",
 					"T | where s == \"x;y\" // tail; comment\n| count",
 					"T | where s == 'it\\'s // not a comment' | take 1",
+					"T | where `a\\` == 1",
+					"T | project `C:\\logs\\`, b | where `C:\\logs\\` != 'x\\\\'",
+					"T | extend r = hits/`cache misses` | take 1",
+					"T | where s == \"tail\\\\\" // c\n| count",
 				}).Draw(rt, "urlquery")})
 				kinds += "Q"
 			default:
@@ -463,7 +483,13 @@ func TestC16Scripts(t *testing.T) {
 			if n := len(s.Seps); n > 0 && !strings.Contains(s.Seps[n-1], "\n") && rapid.IntRange(0, 3).Draw(rt, "ownline") > 0 {
 				s.Seps[n-1] += "\n"
 			}
-			s.Stmts = append(s.Stmts, cliStmt{"query", "T | where a == '" + strings.Repeat("x", s.LongLineBytes) + "'"}, cliStmt{"query", "U | count"})
+			long := "T | where a == '" + strings.Repeat("x", s.LongLineBytes) + "'"
+			if rapid.Bool().Draw(rt, "longinside") {
+				// the over-long line lies inside a statement whose first lines
+				// form a complete query on their own
+				long = "T\n| where a > 1\n| where s == '" + strings.Repeat("x", s.LongLineBytes) + "'\n| count"
+			}
+			s.Stmts = append(s.Stmts, cliStmt{"query", long}, cliStmt{"query", "U | count"})
 			s.Seps = append(s.Seps, "\n", "\n")
 			kinds += "XQ"
 		case 1, 2:
